@@ -207,6 +207,7 @@ theorem lateLit_stuck (ext : List Ev) (hext : ∀ e ∈ ext, e.isPeer = false) :
       cases e with
       | closer => decide
       | peerClose i => simp [Ev.isPeer] at hp
+      | closerNext c => simp [step, closerNext, lateLit]
       | handler i =>
         cases i with
         | zero => decide
